@@ -1,12 +1,14 @@
 ---------------------------- MODULE MCMultipart ----------------------------
 (* Constant sets for the exhaustive configurations of Multipart (cfg files cannot write sequences). *)
 EXTENDS Multipart
+CONSTANT MinNodes   \* generator: print only trees with at least this many nodes
 
 T(s, ns) == [set |-> TRUE, s |-> s, ns |-> ns]
 
 \* "a", "ab", "a b", "a%2F", e-acute (2 UTF-8 bytes), a name with a double quote  -- prefix-related names included
 NamesAll   == {<<"a">>, <<"a", "b">>, <<"a", " ", "b">>, <<"a", "%", "2", "F">>, <<"xC3", "xA9">>, <<"x22", "q">>}
 NamesMore  == NamesAll \cup {<<"a", "+">>, <<"a", "?", "b", "=", "1", "&">>, <<"a", "\\">>, <<"a", "x0A">>, <<"a", ".">>}
+NamesFour  == {<<"a">>, <<"a", "b">>, <<"a", " ", "b">>, <<"a", "%", "2", "F">>}
 NamesSmall == {<<"a">>, <<"a", "b">>}
 NamesTiny  == {<<"a">>, <<"a", " ", "b">>, <<"a", "%", "2", "F">>}
 TypesAll   == {"dir", "file", "link"}
